@@ -339,6 +339,40 @@ def processEntAdd (w : W) (p : Nat) (e : List Nat) (ctr : Nat) (ack : Bool) : W 
   let feats := (pr.feats.filter fun f => f.ent ≠ e) ++ (w.fresh.feats.filter fun f => f.ent = e)
   (bump (setPeer w p { pr with feats := feats }) outs, outs)
 
+/-- the entities a peer currently announces (every announced entity carries a feature) -/
+def entsOf (w : W) (p : Nat) : List (List Nat) := ((w.peers p).feats.map (·.ent)).eraseDups
+
+/-- a FULL (unfiltered) discovery notification that lists the entities `keep` (with the features of the announcement
+    set for those that are new): the handler turns it into a diff — listed and unknown: added; known and not listed:
+    removed ([0] is never removed); listed and known: untouched. An empty diff is an error (answered, and the data is
+    read again). Every removed entity loses its features, subscriptions and bindings. -/
+def fullRemoved (w : W) (p : Nat) (keep : List (List Nat)) : List (List Nat) :=
+  (entsOf w p).filter fun e => !keep.contains e && e ≠ [0]
+
+def fullAdded (w : W) (p : Nat) (keep : List (List Nat)) : List (List Nat) :=
+  keep.filter fun e => !(entsOf w p).contains e
+
+def fullEmpty (w : W) (p : Nat) (keep : List (List Nat)) : Bool :=
+  (fullAdded w p keep).isEmpty && ((entsOf w p).filter fun e => !keep.contains e).isEmpty
+
+def applyFull (w : W) (p : Nat) (keep : List (List Nat)) : W :=
+  let rem := fullRemoved w p keep
+  let add := fullAdded w p keep
+  { setPeer w p { w.peers p with
+      feats := ((w.peers p).feats.filter fun f => !rem.contains f.ent) ++ (w.fresh.feats.filter fun f => add.contains f.ent) } with
+    subs := w.subs.filter fun b => !(b.2.1 = p && rem.contains b.2.2.1)
+    binds := w.binds.filter fun b => !(rem.any fun e => entDrops w.cfg p e b) }
+
+def processFull (w : W) (p : Nat) (keep : List (List Nat)) (ctr : Nat) (ack : Bool) : W × List (Nat × Out) :=
+  if !connected w p then (w, []) else
+  if fullEmpty w p keep then
+    let e := (p, Out.result (some ctr) 1 nmAddr nmAddr (some 0))
+    let r := request (sendN (w.peers p) 1) nmAddr 901
+    (setPeer w p r.1, [e] ++ (if r.2 then [(p, Out.readReq 901 nmAddr nmAddr)] else []))
+  else
+    let outs := if ack then [(p, Out.result (some ctr) 0 nmAddr nmAddr (some 0))] else []
+    (bump (applyFull w p keep) outs, outs)
+
 /-- a repeated discovery *reply* of a connected peer (legal at any time): every announced entity is announced again
     with its features (new feature objects in the code; the registries keep their entries, which stay addressable),
     the device-added event makes the local node management ask again for the subscription and the use-case data
@@ -383,6 +417,7 @@ inductive Op
   | conn (p : Nat)
   | setData (a : Addr) (fn v : Nat)
   | reann (p : Nat) (ctr : Nat) (ref : Option Nat) (ack : Bool)
+  | full (p : Nat) (keep : List (List Nat)) (ctr : Nat) (ack : Bool)
 deriving Repr
 
 def step (w : W) : Op → W × List (Nat × Out)
@@ -394,6 +429,7 @@ def step (w : W) : Op → W × List (Nat × Out)
   | .conn p => (connPeer w p, [])
   | .setData a fn v => localSet w a fn v
   | .reann p ctr ref ack => processReann w p ctr ref ack
+  | .full p keep ctr ack => processFull w p keep ctr ack
 
 def run (w : W) (ops : List Op) : W := ops.foldl (fun w o => (step w o).1) w
 
